@@ -102,3 +102,8 @@ def probes(case, layers, view, img):
             run = 0
     p["hds.v%d_units" % cfg["ver"]] = 1
     return p
+
+
+def req_meta_bytes(cfg, img, off, ln):
+    ncl = (cfg["nsectors"] + cfg["cluster"] - 1) // cfg["cluster"]
+    return 4 * ncl + 64
